@@ -998,3 +998,11 @@ package kcp
 //@   loop 5 invariant forall j int :: 0 <= j && j < len(ecc) ==> eccrow(ecc[j], s.headerSize, 0)
 //@   loop 6 invariant s.ppinv() && (txqueue == nil || fresh(txqueue)) && bytesToSend >= 0
 //@   loop 6 invariant forall k int :: rangeindex < k && k < len(txqueue) ==> len(txqueue[k].Buffers) == 1 && fresh(txqueue[k].Buffers)
+// FEC sequence ids (fecid) wrap at paws, a multiple of the group size: id % group size (position)
+// and id / group size (fecgroup) are wrap-safe; ordering goes through _itimediff on ids (group ids
+// are scaled back by the group size first).
+//@ kind fecid fecEncoder.next pulse.seq local:autoTune.Sample.seq local:fecDecoder.getShardId.seqid local:shardHeap.Has.seqid
+//@ kindfunc fecPacket.seqid fecid
+//@ kind fecgroup fecDecoder.newestShardId local:fecDecoder.decode.shardId local:fecDecoder.discardShards.shardId
+//@ kindfunc fecDecoder.getShardId fecgroup
+//@ kind paws fecEncoder.paws fecDecoder.paws
